@@ -138,7 +138,8 @@ class LoopHooks(Hooks):
         for nme in spec["modifies"]:
             v = env[nme]
             if isinstance(v, ArrV):
-                env[nme] = v.havoc(f"h{ordinal}")
+                # arrays are mutated in place: havoc the *object* so that aliases (the caller's reference) see it
+                v.term = z3.FreshConst(v.term.sort(), f"{v.name or 'arr'}_h{ordinal}")
             elif is_sym(v) or isinstance(v, (int, float)):
                 srt = v.sort() if is_sym(v) else (z3.RealSort() if isinstance(v, float) else z3.IntSort())
                 env[nme] = z3.FreshConst(srt, f"{nme}_h{ordinal}")
